@@ -394,7 +394,9 @@ def apply(fb):
     if not os.path.exists(TABLE):
         return
     with open(TABLE) as fh:
-        known = set(json.load(fh)["functions"])
+        tbl = json.load(fh)
+        known = set(tbl["functions"])
+        info = tbl.get("info") or {}
     fb._known_paths = {b["path"] for b in fb.bodies.values() if b["path"] in known}
     new = {k: b for k, b in fb.bodies.items() if b["kind"] in ("Fn", "AssocFn") and b["path"] not in known and not b.get("exp") and b.get("blocks")}
     # a listed function that is gone under its path while an unlisted one has its name: it was MOVED (other module / into an impl),
@@ -423,6 +425,48 @@ def apply(fb):
             rivals = [n2 for (c2, n2, _) in gone_names if c2 == c_ and n2 != n_ and lcs(n2, nm2) >= max(12, int(0.6 * len(n2)))]
             if not rivals:
                 gone.setdefault((c_, nm2), []).append(ps_[0])
+    # renamed arbitrarily (`parse_any_algorithm` -> `Algorithm::parse_with_any`): a listed function that is gone and an unlisted one
+    # of the same crate with the same arity and exactly the callers the listed one had at the pinned HEAD (callers that are new
+    # helpers themselves are replaced by their own callers); several candidates: the strictly closest name; unique in both directions
+    if info:
+        by_caller = {}
+        for b_ in fb.bodies.values():
+            for blk in b_.get("blocks") or []:
+                t = blk.get("t") or {}
+                if t.get("k") == "call" and (t.get("f") or {}).get("k") == "fn":
+                    ck = t["f"]["fn"].get("rkey", t["f"]["fn"].get("key"))
+                    if ck != b_["key"]:
+                        by_caller.setdefault(ck, set()).add(b_["key"])
+        def callers_of(k_, seen_=None):
+            seen_ = seen_ if seen_ is not None else set()
+            out_ = set()
+            for c_ in by_caller.get(k_, ()):
+                if c_ in seen_:
+                    continue
+                seen_.add(c_)
+                if c_ in new:
+                    out_ |= callers_of(c_, seen_)
+                elif c_ in fb.bodies:
+                    out_.add(fb.bodies[c_]["path"])
+            return out_
+        taken = {n2 for (c2, n2) in gone}
+        picks = {}
+        for (c_, n_, ps_) in gone_names:
+            if any(ps_[0] in v_ and k_ != (c_, n_) for k_, v_ in gone.items()):
+                continue                       # already paired by the name rule above
+            want = info.get(ps_[0])
+            if not want or not want["callers"]:
+                continue
+            cands = [(k_, b_) for k_, b_ in new.items() if b_["crate"] == c_ and b_["path"].split("::")[-1] not in taken and b_.get("argc") == want["argc"] and callers_of(k_) == set(want["callers"])]
+            if len(cands) > 1:
+                sc = sorted(((lcs(n_, b_["path"].split("::")[-1]), k_, b_) for k_, b_ in cands), key=lambda z: -z[0])
+                cands = [(sc[0][1], sc[0][2])] if sc[0][0] > sc[1][0] else []
+            if len(cands) == 1:
+                picks.setdefault(cands[0][0], []).append((c_, ps_[0], cands[0][1]["path"].split("::")[-1]))
+        for k_, lst in picks.items():
+            if len(lst) == 1:
+                c_, old_, nm2 = lst[0]
+                gone.setdefault((c_, nm2), []).append(old_)
     moved = {}
     for k, b in list(new.items()):
         olds = gone.get((b["crate"], b["path"].split("::")[-1]))
